@@ -107,7 +107,7 @@ func cmdReplay(args []string) {
 	wg.Wait()
 	sigCount := map[string]int{}
 	kept := map[string]int{}
-	var findings []Finding
+	findings := []Finding{}
 	deviations := [][]interface{}{}
 	ops := map[string]int{}
 	steps, nrev, clean, broken := 0, 0, 0, []string{}
@@ -189,7 +189,7 @@ func cmdRandom(args []string) {
 	defer tw.Flush()
 	total, nrev := 0, 0
 	sigCount := map[string]int{}
-	var findings []Finding
+	findings := []Finding{}
 	deviations := [][]interface{}{}
 	for t := 0; t < *n; t++ {
 		steps := genJournalTrace(w, rnd, *ln, *depth, t%2 == 0)
